@@ -887,6 +887,9 @@ func (s *Syncer) syncLoop(ctx context.Context) error {
 				// above them. There is nothing we can fetch from it, but it is
 				// not misbehaving and may be syncing from us: keep it connected.
 				r.peer.setSyncedSince(r.resyncs)
+			} else if errors.Is(r.err, errInvalidHeader) {
+				// insufficient work, a bad timestamp or broken linkage: provable
+				s.ban(r.peer, r.err)
 			} else if r.err != nil {
 				r.peer.setErr(r.err)
 			} else if len(r.headers) == 0 {
